@@ -108,6 +108,7 @@ func intsString(l []int) string {
 // runTab builds the table with the real texttab, formats it and prints case/obs/sobs.
 func runTab(ops []op, tags map[string]bool) {
 	var out string
+	fresh := "same"
 	var perm []int
 	func() {
 		defer func() {
@@ -126,15 +127,40 @@ func runTab(ops []op, tags map[string]bool) {
 			return
 		}
 		out = hx.Hex(buf.Bytes())
+		// state: Format sorts the table's cells in place. Formatting the same table again, and
+		// formatting a table that was already formatted half-way through its construction, must
+		// give the bytes a fresh table gives.
+		var again bytes.Buffer
+		if err := t.Format(&again); err != nil || !bytes.Equal(again.Bytes(), buf.Bytes()) {
+			fresh = "diff:again"
+		}
+		for k := len(ops) / 2; k < len(ops); k++ {
+			if ops[k].kind != 'r' {
+				continue
+			}
+			var t2 texttab.Table
+			for _, o := range ops[:k] {
+				apply(&t2, o)
+			}
+			var sink, late bytes.Buffer
+			t2.Format(&sink)
+			for _, o := range ops[k:] {
+				apply(&t2, o)
+			}
+			if err := t2.Format(&late); err != nil || !bytes.Equal(late.Bytes(), buf.Bytes()) {
+				fresh = "diff:midformat"
+			}
+			break
+		}
 	}()
 	hx.Printf("case %d kind=tab ops=%s perm=%s text=%s tag=%s\n", id, opsString(ops), intsString(perm), out, tagString(tags))
 	hx.Printf("obs %d out=%s\n", id, out)
 	// spec vocabulary: a call sequence that moves to an earlier column must be refused (panic);
 	// everything else must be laid out
 	if out == "!panic" {
-		hx.Printf("sobs %d layout=panic\n", id)
+		hx.Printf("sobs %d layout=panic fresh=%s\n", id, fresh)
 	} else {
-		hx.Printf("sobs %d layout=ok\n", id)
+		hx.Printf("sobs %d layout=ok fresh=%s\n", id, fresh)
 	}
 	id++
 }
@@ -498,7 +524,24 @@ func runKh(vals [][]string, nf int, tag string) {
 	if len(lv) == 0 {
 		lv = []string{"-"}
 	}
-	hx.Printf("sobs %d lv=%s\n", id, strings.Join(lv, "/"))
+	// state and aliasing: a second NewKeyHeader over the same slice gives the same tree, leaves the
+	// first tree and the caller's key slice as they were
+	fresh := "same"
+	before := append([]benchproc.Key(nil), keys...)
+	first := showNodes(kh.Top)
+	kh2 := benchproc.NewKeyHeader(keys)
+	if showNodes(kh2.Top) != first || showNodes(kh.Top) != first {
+		fresh = "diff:tree"
+	}
+	for i := range before {
+		if before[i] != keys[i] {
+			fresh = "diff:keys"
+		}
+	}
+	if len(kh.Keys) != len(keys) {
+		fresh = "diff:len"
+	}
+	hx.Printf("sobs %d lv=%s fresh=%s\n", id, strings.Join(lv, "/"), fresh)
 	id++
 }
 
@@ -644,7 +687,49 @@ func runTable(t *benchtab.Table, tag string) {
 		csvOut, warn = hx.Hex(cb.Bytes()), hx.Hex(wb.Bytes())
 	}()
 	hx.Printf("obs %d text=%s csv=%s warn=%s n=%d\n", myid, text, csvOut, warn, n)
-	hx.Printf("sobs %d agree=ok hdr=ok layout=ok\n", myid)
+	// state and aliasing: the same Table rendered again (text after CSV, CSV after text) gives the
+	// same bytes, and rendering leaves the Table (keys, cells, summaries: its view) unchanged
+	fresh := "same"
+	func() {
+		defer func() {
+			if e := recover(); e != nil {
+				fresh = "diff:panic"
+			}
+		}()
+		colsBefore := append([]benchproc.Key(nil), t.Cols...)
+		rowsBefore := append([]benchproc.Key(nil), t.Rows...)
+		var tb2, cb2, wb2, tb3 bytes.Buffer
+		w := csv.NewWriter(&cb2)
+		n2 := t.ToCSV(w, 1, &wb2)
+		w.Flush()
+		if text != "!panic" {
+			t.ToText(&tb2, false)
+			t.ToText(&tb3, false)
+			if hx.Hex(tb2.Bytes()) != text || !bytes.Equal(tb2.Bytes(), tb3.Bytes()) {
+				fresh = "diff:text"
+			}
+		}
+		if csvOut != "!panic" && (hx.Hex(cb2.Bytes()) != csvOut || hx.Hex(wb2.Bytes()) != warn || n2 != n) {
+			fresh = "diff:csv"
+		}
+		if benchtab.VerifView(t) != view {
+			fresh = "diff:view"
+		}
+		if len(colsBefore) != len(t.Cols) || len(rowsBefore) != len(t.Rows) {
+			fresh = "diff:keys"
+		}
+		for i := range colsBefore {
+			if i < len(t.Cols) && colsBefore[i] != t.Cols[i] {
+				fresh = "diff:cols"
+			}
+		}
+		for i := range rowsBefore {
+			if i < len(t.Rows) && rowsBefore[i] != t.Rows[i] {
+				fresh = "diff:rows"
+			}
+		}
+	}()
+	hx.Printf("sobs %d agree=ok hdr=ok layout=ok fresh=%s\n", myid, fresh)
 }
 
 // benchstatTables drives the pipeline of cmd/benchstat/main.go in-process.
@@ -1016,12 +1101,42 @@ func runScenario(sc scenario) {
 		hx.Printf("crash %d %s\n", myid, strings.ReplaceAll(crash, "\n", " "))
 	} else {
 		hx.Printf("case %d kind=e2e row=%s col=%s text=%s csv=%s warn=%s tag=%s\n", myid, hx.HexS(sc.rowBy), hx.HexS(sc.colBy), hx.HexS(text), hx.Hex(cb.Bytes()), hx.Hex(wb.Bytes()), tag)
-		hx.Printf("sobs %d agree=ok hdr=ok layout=ok\n", myid)
+		hx.Printf("sobs %d agree=ok hdr=ok layout=ok fresh=%s\n", myid, rerender(tables, sc, text, cb.Bytes(), wb.Bytes()))
 	}
 	// every table on its own: model rendering vs real rendering
 	for _, t := range tables.Tables {
 		runTable(t, tag)
 	}
+}
+
+// rerender: the whole output again after every table of the run was rendered on its own (A, B, …
+// then A, B again in one process), and the output of a second, fresh pipeline run over the same files.
+func rerender(tables *benchtab.Tables, sc scenario, text string, csvBytes, warnBytes []byte) (fresh string) {
+	fresh = "same"
+	defer func() {
+		if e := recover(); e != nil {
+			fresh = "diff:panic"
+		}
+	}()
+	check := func(ts *benchtab.Tables, what string) {
+		var tb, cb, wb bytes.Buffer
+		ts.ToCSV(&cb, &wb)
+		ts.ToText(&tb, false)
+		if tb.String() != text {
+			fresh = "diff:text:" + what
+		}
+		if !bytes.Equal(cb.Bytes(), csvBytes) || !bytes.Equal(wb.Bytes(), warnBytes) {
+			fresh = "diff:csv:" + what
+		}
+	}
+	check(tables, "again")
+	t2, err := benchstatTables(sc.paths, sc.rowBy, sc.colBy)
+	if err != nil {
+		return "diff:pipeline"
+	}
+	check(t2, "freshrun")
+	check(tables, "afterfresh")
+	return
 }
 
 func e2eCases(r *hx.Rand) {
